@@ -42,4 +42,35 @@ theorem no_deadlock {rank : List Nat} {E : List (Nat × Nat)} (h : rankOK rank E
     (W : List (Nat × Nat)) (hsub : ∀ e ∈ W, e ∈ E) (a : Nat) : ¬ Path W a a :=
   fun p => no_cycle h a (path_mono hsub p)
 
+/-! ## liveness skeleton: every actor eventually answers
+
+`Responsive E a`: every actor that `a` may wait for without timeout is itself responsive.  Reading: the handlers of `a`
+consist of finitely many statements (the translated programs have no loops; device calls are assumed to return); the
+only places where a handler can block for ever are its timeout-less asks; if every callee eventually answers, the
+handler finishes, so `a` serves its inbox in FIFO order and eventually answers every question and processes every
+request queued for it.  In a ranked graph EVERY actor is responsive (well-founded induction on the rank). -/
+inductive Responsive (E : List (Nat × Nat)) : Nat → Prop
+  | mk (a : Nat) : (∀ b, (a, b) ∈ E → Responsive E b) → Responsive E a
+
+theorem all_responsive {rank : List Nat} {E : List (Nat × Nat)} (h : rankOK rank E = true) :
+    ∀ a, Responsive E a := by
+  -- strong induction on the rank of `a`
+  have key : ∀ n a, rank.getD a 0 ≤ n → Responsive E a := by
+    intro n
+    induction n with
+    | zero =>
+        intro a ha
+        refine Responsive.mk a ?_
+        intro b hab
+        have := rankOK_edge h hab
+        omega
+    | succ n ih =>
+        intro a ha
+        refine Responsive.mk a ?_
+        intro b hab
+        have := rankOK_edge h hab
+        exact ih b (by omega)
+  intro a
+  exact key (rank.getD a 0) a (Nat.le_refl _)
+
 end Poupool.Blocking
